@@ -19,6 +19,10 @@ static Plan generate(uint64_t seed, uint64_t run, const std::map<std::string, st
   p.seed = seed;
   p.run = run;
   Rng r(mix_seed(seed, run * 2 + (p.property == "C09" ? 0 : 1)));
+  if (p.property == "C13" && opts.count("two") ) {
+    p.set("two_setters", (r.next() & 0xffffff) + 1);
+    return p;
+  }
   if (p.property == "C13") {
     auto h = gen_history(r, r.chance(1, 3) ? 1 : 4);
     if (r.chance(1, 6)) {  // a value of several thousand bytes (block-wise / buffered processing inside a setter)
@@ -489,9 +493,108 @@ static bool enumerate_limit_stores(const std::vector<Op>& ops, Result& res, Stat
   return true;
 }
 
+// Two concurrent setters, enumerated (TSan build only: there every atomic access inside set_max_input_length is a
+// schedule point, sim/atomwrap.cpp).  "Thread B's whole set_max_input_length(v2) happens between the (k-1)-th and the k-th
+// atomic access of thread A's set_max_input_length(v1)" is the sequential execution in which B's call runs inside the hook
+// before A's k-th access.  Afterwards both calls have returned, so the library must behave as under ONE of the two values:
+// can_parse and parse of the same input have to agree with each other under it.
+static int g_set_accesses = 0, g_nested_at = -1;
+static uint32_t g_nested_value = 0;
+static bool g_in_nested = false;
+extern "C" int sim_mutex_depth __attribute__((weak));
+extern "C" void (*sim_mutex_released)() __attribute__((weak));
+static const int kMutexReleased = -77;
+static void two_setters_hook(int site) {
+  if (g_in_nested || (site != A_ATOMIC32 && site != LIM_SET && site != kMutexReleased)) return;
+  // while "thread A" holds a mutex, "thread B" is not run inside it (sim/mutexdepth.cpp); the point right after the
+  // release is a schedule point of its own
+  if (&sim_mutex_depth && sim_mutex_depth > 0) return;
+  g_set_accesses++;
+  if (g_set_accesses == g_nested_at) {
+    g_in_nested = true;
+    ada::set_max_input_length(g_nested_value);
+    g_in_nested = false;
+  }
+}
+static bool enumerate_two_setters(uint64_t salt, Result& res, Stats& st, std::string& log) {
+  Rng r(salt);
+  // probes of several sizes, and limit values around them and around three times them
+  std::vector<std::string> probes;
+  for (uint32_t len : {5u, 20u, 45u, 80u}) probes.push_back("https://example.com/" + gen_label(r, len) + (r.chance(1, 2) ? "?q=1" : ""));
+  std::set<uint32_t> V = {0, 1, kUnlimited, 1000000};
+  for (auto& x : probes)
+    for (uint32_t v : {uint32_t(x.size() - 1), uint32_t(x.size() + 1), uint32_t(3 * x.size() + 3), uint32_t(x.size() / 3)}) V.insert(v);
+  std::vector<uint32_t> vals(V.begin(), V.end());
+  auto observe = [&]() {
+    std::string o;
+    g_in_nested = true;  // the probes read the limit; no injection while observing
+    for (auto& x : probes) {
+      o += ada::can_parse(x) ? 'T' : 'F';
+      o += ada::parse<ada::url_aggregator>(x).has_value() ? 't' : 'f';
+      o += ada::parse<ada::url>(x).has_value() ? 't' : 'f';
+    }
+    o += ":" + std::to_string(ada::get_max_input_length());
+    g_in_nested = false;
+    return o;
+  };
+  std::vector<std::string> constant(vals.size());
+  for (size_t a = 0; a < vals.size(); a++) {
+    g_nested_at = -1;
+    ada::set_max_input_length(vals[a]);
+    constant[a] = observe();
+  }
+  for (size_t a = 0; a < vals.size(); a++)
+    for (size_t b = 0; b < vals.size(); b++) {
+      if (a == b) continue;
+      g_nested_at = -1;
+      g_set_accesses = 0;
+      ada::set_max_input_length(kUnlimited);
+      g_set_accesses = 0;
+      ada::set_max_input_length(vals[a]);
+      const int n = g_set_accesses;  // schedule points inside one call
+      for (int k = 1; k <= n; k++) {
+        ada::set_max_input_length(kUnlimited);
+        g_set_accesses = 0;
+        g_nested_at = k;
+        g_nested_value = vals[b];
+        ada::set_max_input_length(vals[a]);
+        g_nested_at = -1;
+        std::string got = observe();
+        st.add("two_setter_interleavings_enumerated");
+        log += got;
+        log += '\x1e';
+        if (got != constant[a] && got != constant[b]) {
+          res.violation = true;
+          res.vclass = "limit-torn";
+          res.sig = "mixed-state-after-concurrent-setters";
+          res.detail = "set_max_input_length(" + std::to_string(vals[b]) + ") run entirely before atomic access #" + std::to_string(k) + " of a concurrent set_max_input_length(" +
+                       std::to_string(vals[a]) + "): afterwards can_parse/parse/get give {" + got + "}, which is neither the behaviour under " + std::to_string(vals[a]) + " {" +
+                       constant[a] + "} nor under " + std::to_string(vals[b]) + " {" + constant[b] + "}";
+          return false;
+        }
+      }
+    }
+  return true;
+}
+
 static Result execute_c13l(const Plan& p, Stats& st) {
   Result res;
   auto ops = p.thread_ops(0);
+  if (p.cfg.count("two_setters")) {
+    hooks().off();
+    g_yield_fn = two_setters_hook;
+    if (&sim_mutex_released) sim_mutex_released = [] { two_setters_hook(kMutexReleased); };
+    std::string log;
+    enumerate_two_setters(p.cfg_u("two_setters"), res, st, log);
+    g_yield_fn = nullptr;
+    if (&sim_mutex_released) sim_mutex_released = nullptr;
+    g_nested_at = -1;
+    ada::set_max_input_length(kUnlimited);
+    res.hash = fnv1a(log);
+    res.nontrivial = true;
+    st.add("nontrivial_runs");
+    return res;
+  }
   g_snapshot_origin = false;
   hooks().off();
   g_yield_fn = limit_hook;
